@@ -202,6 +202,25 @@ theorem accepted_sound (doc : Doc) (tok : PTok) (o : PVOpts) (p : Pres) (r : POp
                               · cases p'
                                 simp_all
 
+/-- **the conditions are exact**: a token that carries the configured nonce, whose query (configured method id, else `kid`)
+resolves within the configured scope to a method holding the signing key, whose claims name the holder document as a DID
+issuer, whose dates parse and lie within the bounds and whose `vp` is consistent with the registered claims IS accepted,
+and what is returned is read from those claims (with `accepted_sound`: accepted iff these hold) -/
+theorem accepted_complete (doc : Doc) (tok : PTok) (o : PVOpts) (q : Query) (m : Method) (cl : PClaims)
+    (ex is : Option Int) (p : Pres)
+    (hn : tok.nonce = o.nonce) (hq : queryOf tok o = some q) (hr : resolveMethod doc q o.scope = some m)
+    (hk : m.body ≠ 0) (hs : m.body = tok.sigKey) (hc : tok.claims = some cl) (hd : tok.issIsDid = true)
+    (hi : cl.iss = doc.id) (he : parseExp cl = .ok ex) (heo : expiryOk o ex = true)
+    (his : parseIssuance cl = .ok is) (hio : issuanceOk o is = true) (hp : tryIntoPresentation cl = .ok p) :
+    validateP doc tok o = .ok (p, ⟨ex, is, cl.aud, cl.custom⟩) := by
+  have hv : verifyJws doc tok o = .ok () := by
+    unfold verifyJws
+    have hk' : ¬ tok.sigKey = 0 := hs ▸ hk
+    simp only [hn, ne_eq, not_true_eq_false, ↓reduceIte, hq, hr, hs, hk']
+  unfold validateP
+  simp only [hv, hc, hd, Bool.not_true, Bool.false_eq_true, ↓reduceIte, hi, ne_eq, not_true_eq_false, he, heo, his, hio, hp]
+
+
 /-- an `iss` that is not the holder document's id is refused, whatever else holds -/
 theorem rejects_other_holder (doc : Doc) (tok : PTok) (o : PVOpts) (cl : PClaims) (hc : tok.claims = some cl)
     (hne : cl.iss ≠ doc.id) : ∃ e, validateP doc tok o = .error e := by
